@@ -105,10 +105,8 @@ func TestVerif_C31(t *testing.T) {
 					seqs = append(seqs, o.Seq)
 				}
 			}
-			if sc.kind == "fail" || sc.kind == "fail-after-effect" {
-				// one fault per script: a backend error AND a crash during its handling is a double fault
-				seqs = nil
-			}
+			// for the error kinds the prefixes are double faults (a backend error and then a crash while it is
+			// being handled); they are judged too: "fails or is interrupted at any point"
 			seqs = append(seqs, len(ops))
 			for i, seq := range seqs {
 				files := kit.StateAt(map[backend.Handle][]byte{}, ops, seq)
